@@ -211,7 +211,8 @@ def balanceCmd (leA leK : String → String → Bool) (showAcct : String → Str
     (r : DateRange) (π : Nat → ProcState → ProcState) (es : List Entry) : Outcome (Nat × String) (List String) :=
   cmdText (bkErrText leK showEntry) (balanceLines leA leK showAcct showEntry r) (processScr π {} 0 es)
 
-/-- `okane accounts` (on the book-keeping model: every account written in a transaction or declared). -/
+/-- the account list of the processed ledger (`ctx.all_accounts()` after `process`: every account written in a
+transaction or declared).  `okane accounts` itself does not run book-keeping: see `accountsScanCmd`. -/
 def accountsCmd (leA leK : String → String → Bool) (showEntry : String → Rat → String)
     (π : Nat → ProcState → ProcState) (es : List Entry) : Outcome (Nat × String) (List String) :=
   cmdText (bkErrText leK showEntry) (accountsLines leA) (processScr π {} 0 es)
@@ -240,6 +241,59 @@ theorem registerCmd_det (hoK : KeyOrder leK) (showAcct : String → String) (sho
     registerCmd leK showAcct showEntry acct π₁ es = registerCmd leK showAcct showEntry acct π₂ es :=
   cmdText_eq (fun _ _ he => he.text hoK showEntry) (fun _ _ hs => registerLines_meq hoK showAcct showEntry acct hs)
     (processScr_meq h1 h2 es ProcEq.init 0)
+
+/-! ### `okane accounts` proper: `report::accounts` only interns the account of every posting
+
+```text
+loader.load(|_, _, entry| { if let LedgerEntry::Txn(txn) = entry { for posting in &txn.posts {
+    ctx.accounts.ensure(&posting.account); } } Ok(()) })?;  Ok(ctx.all_accounts())
+``` -/
+
+/-- one entry of the scan. -/
+def accountsStep (s : Store) : Entry → Store
+  | .txn t => t.posts.foldl (fun s p => (s.ensure p.account).2) s
+  | _ => s
+
+/-- the scan with a re-layout `σ i` of the intern store after entry `i`. -/
+def accountsScr (σ : Nat → Store → Store) : Store → Nat → List Entry → Store
+  | s, _, [] => s
+  | s, i, e :: es => accountsScr σ (σ i (accountsStep s e)) (i + 1) es
+
+/-- `σ` only re-orders the records of the store. -/
+def StoreRelayout (σ : Nat → Store → Store) : Prop := ∀ i s, StoreEq s s → StoreEq s (σ i s)
+
+theorem accountsStep_meq {s s' : Store} (h : StoreEq s s') (e : Entry) :
+    StoreEq (accountsStep s e) (accountsStep s' e) := by
+  cases e with
+  | txn t =>
+    simp only [accountsStep]
+    generalize t.posts = ps
+    induction ps generalizing s s' with
+    | nil => exact h
+    | cons p ps ih => simp only [List.foldl_cons]; exact ih (h.ensure p.account).2
+  | _ => exact h
+
+theorem accountsScr_meq {σ₁ σ₂ : Nat → Store → Store} (h1 : StoreRelayout σ₁) (h2 : StoreRelayout σ₂) (es : List Entry) :
+    ∀ {s s' : Store}, StoreEq s s' → ∀ (i : Nat), StoreEq (accountsScr σ₁ s i es) (accountsScr σ₂ s' i es) := by
+  induction es with
+  | nil => intro s s' h i; exact h
+  | cons e es ih =>
+    intro s s' h i
+    have hs := accountsStep_meq h e
+    simp only [accountsScr]
+    exact ih (((h1 i _ (hs.trans hs.symm)).symm.trans hs).trans (h2 i _ (hs.symm.trans hs))) (i + 1)
+
+/-- `okane accounts` as a function of the layout history of the intern store and the entry list. -/
+def accountsScanCmd (le : String → String → Bool) (σ : Nat → Store → Store) (es : List Entry) : List String :=
+  accountsReport le (accountsScr σ {} 0 es).recs
+
+theorem accountsScanCmd_det (hoA : KeyOrder leA) {σ₁ σ₂ : Nat → Store → Store} (h1 : StoreRelayout σ₁)
+    (h2 : StoreRelayout σ₂) (es : List Entry) : accountsScanCmd leA σ₁ es = accountsScanCmd leA σ₂ es :=
+  accountsReport_meq hoA (accountsScr_meq h1 h2 es (StoreEq.refl AMap.WF_nil) 0)
+
+theorem storeRelayout_id : StoreRelayout (fun _ s => s) := fun _ _ h => h
+theorem storeRelayout_rev : StoreRelayout (fun _ s => ⟨s.recs.reverse⟩) :=
+  fun _ s h => ⟨MEq.wf h, (List.reverse_perm s.recs).symm⟩
 
 end Cmd
 
